@@ -116,7 +116,7 @@ def check_cfg(ctx, fx, cfg):
         if ctx.require(pf is not None, "R06.7", "publish-fan-out@" + cfg, "the broker's publish handler was not found"):
             co = [c for c in fx.children_of(pf["def"]) if c["kind"] == "coroutine"][0]
             b = ctx.body(fx, co)
-            A = nfa.Alphabet(calls=[("send", nfa.callee_is("addr::sender::Sender::<M>::send", "addr::sender::Sender::<M>::force_send")), ("iternext", nfa.callee_ends("Iterator::next"))], adts={"core::option::Option": "Option", "core::result::Result": "Res"})
+            A = c09.fanout_alphabet()
             n = nfa.build(b, A, fx, depth=2)
             viols, ps = nfa.check(n, c09.FanOut())
             ctx.count_nfa(n.stats(), ps)
